@@ -102,7 +102,7 @@ def eq(a, b, rtol, natural=0.0):
     return bool(np.all(same | close))
 
 
-def relate(label, v0, v1, perm, n):
+def relate(label, v0, v1, perm, n, natural=0.0):
     """v0 = m(G), v1 = m(pi.G) where new node i = old node perm[i].
     -> (comparable, ok, varied)"""
     rtol = tol_for(label)
@@ -113,7 +113,8 @@ def relate(label, v0, v1, perm, n):
     if isinstance(v0, (tuple, list)) and isinstance(v1, (tuple, list)) and \
             len(v0) == len(v1) and any(
                 isinstance(x, (np.ndarray, tuple, list)) for x in v0):
-        res = [relate(label, a, b, perm, n) for a, b in zip(v0, v1)]
+        res = [relate(label, a, b, perm, n, natural)
+               for a, b in zip(v0, v1)]
         return (all(r[0] for r in res), all(r[1] for r in res),
                 any(r[2] for r in res))
     try:
@@ -126,10 +127,9 @@ def relate(label, v0, v1, perm, n):
     hist = any(h in label for h in HIST)
     varied = a0.size > 1 and not np.all(a0 == a0.flat[0])
     if a0.ndim == 0 or hist:
-        return True, eq(a0, a1, rtol), varied
+        return True, eq(a0, a1, rtol, natural), varied
     if a0.shape == (n,) and a1.shape == (n,):
-        return True, eq(a0[perm], a1, rtol,
-                        natural=0.0), varied
+        return True, eq(a0[perm], a1, rtol, natural), varied
     if a0.shape == (n, n) and a1.shape == (n, n):
         return True, eq(a0[np.ix_(perm, perm)], a1, rtol), varied
     if a0.shape != a1.shape:
@@ -192,7 +192,15 @@ def compare_objects(ctx, kind, o0, o1, perm, n, cid, case, have_attr,
                               f"{type(e).__name__}",
                               {**case, "exc": repr(e)}, cid)
                 continue
-            comparable, good, varied = relate(label, v0, v1, perm, n)
+            # weighted pair sums have the natural scale W^2: an exact 0 may
+            # come back as rounding noise of that scale
+            nat = 0.0
+            if "betweenness" in label:
+                try:
+                    nat = float(np.sum(o0.node_weights)) ** 2
+                except Exception:  # noqa
+                    nat = 0.0
+            comparable, good, varied = relate(label, v0, v1, perm, n, nat)
             if not comparable:
                 ctx.count("uncomparable")
                 continue
